@@ -22,8 +22,8 @@ RULE = ("parts generated from a block grammar: plain | repeat(body) | repeat(bod
 ASSUMPTIONS = ["exact-path oracle only for non-nested repeat/volta structures without navigation marks; otherwise segment-copy and path-validity checkers",
                "System/Page objects and time/key signatures and clefs that repeat the one in force are documented as not copied (one-sided check)",
                "a reference whose target lies in a segment copied separately may become None (stays inside the copy)"]
-MIN_HOOKS = {"new_part_from_path": {"quick": 400, "thorough": 8000}, "get_paths": {"quick": 300, "thorough": 5000}}
-MIN_NONTRIVIAL = {"quick": 80, "thorough": 1500}
+MIN_HOOKS = {"new_part_from_path": {"quick": 300, "thorough": 8000}, "get_paths": {"quick": 300, "thorough": 5000}}
+MIN_NONTRIVIAL = {"quick": 150, "thorough": 1500}
 _installed = False
 JUMP_CLASSES = ("Repeat", "Ending", "DaCapo", "DalSegno", "ToCoda")
 ELIDABLE = ("TimeSignature", "KeySignature", "Clef", "System", "Page", "Segment") + JUMP_CLASSES
@@ -79,7 +79,7 @@ def check_unfolded(ctx, P, path_ids, seg_table, U, update_ids, label):
                     if cname == "Segment":
                         continue
                     end = int(o.end.t) + delta if o.end is not None else None
-                    if end is not None:
+                    if end is not None and cname not in ELIDABLE and cname not in ("Slur", "Tuplet"):
                         max_end = max(max_end, end)
                     if isinstance(o, S.GenericNote):
                         rows.append((o, t + delta, end))
@@ -130,42 +130,52 @@ def check_unfolded(ctx, P, path_ids, seg_table, U, update_ids, label):
             ctx.violation("jump-object-left-in-unfolded-part", f"{k[0]} at {k[1]} remains", w)
             return
         if exp_other[k] < v:
+            if any(kk[0] == k[0] and kk[1] == k[1] and (kk[2] is None or k[0] in ("Slur", "Tuplet")) for kk in exp_other):
+                continue                 # the copy of a slur/tuplet takes its end from its end note (setter); an unset end gets set
             if k[0] == "Fermata":
                 ctx.ambiguous()          # documented special case: barline fermata at a segment end
                 continue
             ctx.violation("unfolded-object-not-a-copy-of-a-visited-object", f"{k} x{v}, original provides x{exp_other[k]}", w)
             return
-    for k, v in exp_other.items():
-        if k[0] in ELIDABLE:
-            continue
-        if got_other[k] != v:
-            ctx.violation("unfolded-object-missing", f"{k}: expected x{v}, found x{got_other[k]}", w)
-            return
     # length
     ctx.check()
     first_u, last_u = int(U.first_point.t), int(U.last_point.t)
+    if last_u > max(total, max_end) and first_u == 0 and any(
+            type(o).__name__ in ("Slur", "Tuplet") and o.end is not None and int(o.end.t) > max(total, max_end) for o in u_objs):
+        ctx.violation("unfolded-timeline-extended-by-overhanging-slur", f"unfolded timeline ends at {last_u}, visited segments sum to {total}: a "
+                      "slur/tuplet copied from the last visited segment keeps its end beyond it", w)
+        return
     if last_u != max(total, max_end) or first_u != 0:
         ctx.violation("unfolded-length-wrong", f"unfolded timeline [{first_u},{last_u}], visited segments sum to {total} (longest copied object ends {max_end})", w)
         return
-    # ---- reference closure
-    inside = {id(o) for o in u_objs}
+    # ---- reference closure: nothing in the unfolded part may refer to an object (or time point) of the original
+    originals = {id(o) for o in p_objs} | {id(tp) for tp in P._points}
+    for tp in P._points:
+        for objs in tp.ending_objects.values():
+            originals.update(id(o) for o in objs)
     pts = list(U._points)
     pt_ids = {id(p) for p in pts}
     ctx.check()
     for i, p in enumerate(pts):
-        if (p.prev is not None and id(p.prev) not in pt_ids) or (p.next is not None and id(p.next) not in pt_ids) or \
-                p.prev is not (pts[i - 1] if i else None) or p.next is not (pts[i + 1] if i + 1 < len(pts) else None):
-            ctx.violation("unfolded-timepoint-links-leave-the-copy", f"point t={p.t} prev/next not its neighbours in the unfolded part", w)
+        if p.prev is not (pts[i - 1] if i else None) or p.next is not (pts[i + 1] if i + 1 < len(pts) else None):
+            ctx.violation("unfolded-timepoint-links-leave-the-copy", f"point t={p.t} prev/next are not its neighbours in the unfolded part", w)
             return
-    for o in u_objs:
-        if o.start is None or id(o.start) not in pt_ids or (o.end is not None and id(o.end) not in pt_ids):
+    all_u = list(u_objs)
+    for tp in pts:
+        for objs in tp.ending_objects.values():
+            all_u.extend(objs)
+    for o in all_u:
+        if id(o) in originals:
+            ctx.violation("original-object-registered-in-unfolded-part", f"{type(o).__name__} of the original is listed in the unfolded part", w)
+            return
+        if (o.start is not None and id(o.start) not in pt_ids) or (o.end is not None and id(o.end) not in pt_ids):
             ctx.violation("unfolded-object-time-points-leave-the-copy", f"{type(o).__name__} start/end is not a point of the unfolded part", w)
             return
         for attr in getattr(o, "_ref_attrs", []):
             v = getattr(o, attr, None)
             for t in (v if isinstance(v, list) else [v]):
-                if t is not None and id(t) not in inside:
-                    ctx.violation("unfolded-reference-leaves-the-copy", f"{type(o).__name__}.{attr} of the unfolded part refers to an object outside it", w)
+                if t is not None and id(t) in originals:
+                    ctx.violation("unfolded-reference-leaves-the-copy", f"{type(o).__name__}.{attr} of the unfolded part refers to an object of the original part", w)
                     return
 
 
@@ -188,13 +198,19 @@ def install(ctx):
     h = core.Hook(S, "new_part_from_path", post=post_npfp, ctx=ctx, label="new_part_from_path")
     core.rebind_everywhere(h.orig, h.wrapper)
 
+    depth = {"n": 0}
+
     def mk_unmodified(fname):
         def pre(*a, **k):
+            depth["n"] += 1
+            if depth["n"] > 1:
+                return None          # nested inside another observed entry point: the outer one judges the argument
             arg = a[0] if a else next(iter(k.values()))
             return (snapshot.snap(arg), snapshot.snap(arg, drop_classes=("Segment",)))
 
         def post(ret, exc, token, a, k):
-            if exc is not None:
+            depth["n"] -= 1
+            if exc is not None or token is None:
                 return
             arg = a[0] if a else next(iter(k.values()))
             judge_unmodified(core.CURRENT, arg, token, fname)
@@ -246,7 +262,7 @@ def build(rng, nav_allowed=True):
         start = state["t"]
         for _ in range(n):
             if rng.random() < 0.08 and state["t"] > 0:
-                state["ts"] = rng.choice([(4, 4), (3, 4), (2, 4)])
+                state["ts"] = rng.choice([x for x in [(4, 4), (3, 4), (2, 4)] if x != state["ts"]])   # a real change (redundant ones are elided by design)
                 part.add(S.TimeSignature(*state["ts"]), state["t"])
             if rng.random() < 0.06 and state["t"] > 0:
                 state["q"] = rng.choice([2, 4, 6, 12])
@@ -306,8 +322,9 @@ def build(rng, nav_allowed=True):
                 e = add_measures(1)
                 part.add(S.Ending(nums), e[0], e[1])
                 ends.append((nums, e))
-            # the repeat sign sits at the end of every ending but the last
-            part.add(S.Repeat(), body[0], ends[-2][1][1])
+            # a backward repeat sign sits at the end of every ending but the last
+            for _n, e_ in ends[:-1]:
+                part.add(S.Repeat(), body[0], e_[1])
             total = sum(len(n.split(",")) for n, _ in ends)
             for k in range(1, total + 1):
                 e = next(e for n, e in ends if str(k) in n.split(","))
@@ -367,7 +384,17 @@ def build(rng, nav_allowed=True):
     if rng.random() < 0.3 and notes:
         part.add(S.ConstantLoudnessDirection("f"), notes[0].start.t)
         part.add(S.Words("dolce"), notes[len(notes) // 2].start.t)
-    meta = {"structure": "".join(desc) + f"/q{q}", "exp_max": exp_max if exact else None, "exp_min": exp_min if exact else None,
+    est = 1
+    for d_ in desc:
+        if d_ == "R":
+            est *= 2
+        elif d_.startswith("V("):
+            est *= 1 + sum(len(x.split(",")) for x in d_[2:-1].split("|"))
+        elif d_ == "N":
+            est *= 6
+    if nav:
+        est = est * est
+    meta = {"variants_estimate": est, "structure": "".join(desc) + f"/q{q}", "exp_max": exp_max if exact else None, "exp_min": exp_min if exact else None,
             "n_simple": n_simple, "only_simple": exact and not has_volta and n_constructs == n_simple, "constructs": n_constructs,
             "volta": has_volta, "crossing": crossing, "nav": nav}
     return part, meta
@@ -376,7 +403,13 @@ def build(rng, nav_allowed=True):
 def pieces_to_ids(part, pieces):
     segs = R.segments(R.marks(part))
     ids = []
-    for s, e in pieces:
+    merged = []
+    for s, e in pieces:          # pieces played one after the other that are contiguous in the score form one stretch
+        if merged and merged[-1][1] == s:
+            merged[-1] = (merged[-1][0], e)
+        else:
+            merged.append((s, e))
+    for s, e in merged:
         for i, (a, b) in enumerate(segs):
             if s <= a and b <= e:
                 ids.append(R.seg_id(i))
@@ -384,7 +417,7 @@ def pieces_to_ids(part, pieces):
 
 
 def plan(tier, seed):
-    n = 16 * 16 if tier == "quick" else 16 * 300
+    n = 16 * 40 if tier == "quick" else 16 * 600
     items = [["gen", i] for i in range(n)]
     import glob
     import os
@@ -401,6 +434,12 @@ def run_item(ctx, item):
         import partitura
         sc = ctx.call(partitura.load_score, item[1])
         for part in sc.parts:
+            mk = R.marks(part)
+            if any(rs == es for rs, _ in mk["repeats"] for es, _, _ in mk["endings"]):
+                # a repeat that starts where a volta bracket starts (the MEI importer builds these when a backward
+                # repeat has no forward sign): not a notation the statement's quantifier covers
+                ctx.extra["fixture_parts_with_repeat_starting_at_a_bracket_skipped"] += 1
+                continue
             n_paths = len(ctx.call(S.get_paths, part, False, True, True))
             ctx.try_call(S.unfold_part_maximal, part, True)
             ctx.try_call(S.unfold_part_minimal, part)
@@ -414,6 +453,23 @@ def run_item(ctx, item):
     update_ids = rng.random() < 0.5
     ignore_leaps = rng.random() < 0.5
     # checker 3: exact paths
+    m_ = R.marks(part)
+    segs_ = R.segments(m_)
+    leap_dst = set(m_["segno"]) | set(m_["coda"]) | ({m_["first"]} if (m_["dacapo"] or m_["dalsegno"] or m_["tocoda"]) else set())
+    leap_src = set(m_["dacapo"]) | set(m_["dalsegno"]) | set(m_["tocoda"])
+    conflict = any(a in leap_dst and b in leap_src for a, b in segs_)
+    if conflict:
+        # one segment is both the destination of a jump and the source of one: the library keeps a single
+        # 'type' per segment and cannot enumerate paths (raises); recorded as one mechanism
+        try:
+            S.get_paths(part, False, True, ignore_leaps)
+            S.get_paths(part, True, False, True)
+            S.get_paths(part, False, False, True)
+        except (IndexError, RecursionError) as e:
+            ctx.violation("leap-source-segment-is-also-leap-destination", f"path enumeration raised {type(e).__name__} for structure {meta['structure']}",
+                          {"structure": meta["structure"], "marks": {k: v for k, v in m_.items() if v}})
+            ctx.case(meta["structure"] + ":conflict", False, cls="leap-conflict")
+            return
     ok, paths = ctx.try_call(S.get_paths, part, False, True, ignore_leaps)
     if ok and meta["exp_max"] is not None:
         exp = pieces_to_ids(part, meta["exp_max"])
@@ -429,12 +485,20 @@ def run_item(ctx, item):
     # the unfolders themselves (hooks judge each produced part)
     ok, umax = ctx.try_call(S.unfold_part_maximal, part, update_ids, ignore_leaps)
     ok2, umin = ctx.try_call(S.unfold_part_minimal, part)
-    if meta["constructs"] <= 3:
-        ok3, variants = ctx.try_call(lambda: list(S.iter_unfolded_parts(part, update_ids)))
-        if ok3 and meta["only_simple"]:
+    import itertools
+    # enumerating all variants is exponential in the number of constructs: only for small structures
+    small = meta["variants_estimate"] <= 48
+    if not small:
+        ctx.extra["all_variant_enumeration_skipped_large_structure"] += 1
+    ok3, all_paths = ctx.try_call(S.get_paths, part, False, False, True) if small else (False, None)
+    if ok3:
+        ctx.extra["paths_enumerated"] += len(all_paths)
+        if meta["only_simple"]:
             ctx.check()
-            if len(variants) != 2 ** meta["n_simple"]:
-                ctx.violation("variant-count-not-2-to-the-r", f"{len(variants)} variants for {meta['n_simple']} independent simple repeats", w)
+            if len(all_paths) != 2 ** meta["n_simple"]:
+                ctx.violation("variant-count-not-2-to-the-r", f"{len(all_paths)} variants for {meta['n_simple']} independent simple repeats", w)
+        # every variant is a part built by new_part_from_path (judged by its hook); cap the number materialised
+        ctx.try_call(lambda: list(itertools.islice(S.iter_unfolded_parts(part, update_ids), 6)))
     if rng.random() < 0.3:
         sc = S.Score([part], id="s")
         ctx.try_call(S.unfold_part_maximal, sc, update_ids, ignore_leaps)
